@@ -247,6 +247,8 @@ def consolidate():
 def table():
     merged = consolidate()
     rows = ["| change | property | needs to manifest (short) | first run | latest run | signatures (latest) |", "|---|---|---|---|---|---|"]
+    import re
+    pre = set(re.findall(r"(C\d\d-[A-Z]) †", open(os.path.join(ROOT, "DESIGN.md")).read()))
     for name in sorted(merged):
         e = merged[name]
         h = e["history"]
@@ -259,7 +261,7 @@ def table():
         sigs = []
         for x in h[-1]["checks"].values():
             sigs += [s.split(" (x")[0] for s in x["signatures"][:2]]
-        rows.append("| %s | %s | %s | %s | %s | %s |" % (name, e["property"], title[:110].replace("|", "/"), verdict(h[0]), verdict(h[-1]) if len(h) > 1 else "=", "; ".join("`%s`" % s.replace("|", "\\|") for s in sigs[:2])))
+        rows.append("| %s | %s | %s | %s | %s | %s |" % (name, e["property"], title[:110].replace("|", "/"), verdict(h[0]) + (" †" if name in pre else ""), verdict(h[-1]) if len(h) > 1 else "=", "; ".join("`%s`" % s.replace("|", "\\|") for s in sigs[:2])))
     print("\n".join(rows))
     return 0
 
